@@ -21,6 +21,26 @@ def _whole(l):
     return {'k': 'copy', 'pl': {'l': l, 'p': []}}
 
 
+def takes_verdict(ctx, body, f, lo, feas_calls):
+    """starting an iteration of loop `lo` with flag f == true, does every way round the loop leave f == the verdict of an is_feasible test of this iteration?
+    -> True / False / None (not recognised)"""
+    nextc, header, some_bb, none_bb, blocks = lo
+    tests = {c.bb for c in feas_calls if c.bb in blocks}
+    arr, rets, complete = PathEval(ctx, body).explore(some_bb, {f: ('b', True)}, stop={header})
+    envs = arr.get(header, [])
+    def takes(e):
+        v = e.get(f)
+        for tb in tests:
+            atom = ('payload', ('tok', tb))
+            if v == atom: return True
+            if v is not None and v[0] == 'b' and e.get(('fact', atom)) == v: return True
+        return None if v is None else False
+    got = [takes(e) for e in envs]
+    if not envs or any(g is False for g in got): return False
+    if not complete or any(g is None for g in got): return None
+    return True
+
+
 def flag_rules(ctx, body, sol, sbi, loops, feas_calls):
     """Solution.feasible_relaxed == AND of is_feasible over the active constraints, Solution.feasible == that AND
     the same over the removed ones.  Decided per loop as an induction step with the path evaluator (the flag is
@@ -49,6 +69,14 @@ def flag_rules(ctx, body, sol, sbi, loops, feas_calls):
             rs = ctx.S.slice_operand(body, c.args[0])
             for f in ('constraints', 'removed_constraints'):
                 if rs.has_field(INST, f): srcs.add(f)
+        # ... or by control: `if flag && !c.is_feasible(..)? { flag = false }` -- no data flows from the verdict into the flag, but an iteration
+        # that starts with flag == true ends with flag == this iteration's verdict (same path evaluation as the induction step below)
+        for fld_, lo_ in loops.items():
+            if fld_ in srcs: continue
+            for h in sorted(origins(body, _whole(l))[0]):
+                if body.locals[h] != 'bool': continue
+                dbs = [bi for k, bi, d in body.defs_of(h)]
+                if any(bi in lo_[4] for bi in dbs) and any(bi not in lo_[4] for bi in dbs) and takes_verdict(ctx, body, h, lo_, feas_calls) is True: srcs.add(fld_)
         ctx.check(set(need) <= srcs, R + '.flags/%s/depends-on' % field, 'T-CARRY', body.name,
                   'Solution.%s does not depend on is_feasible of %s (depends on %s)' % (field, sorted(set(need) - srcs), sorted(srcs)), body.site(sbi))
         ctx.check(not (set(forbid) & srcs), R + '.flags/%s/independent-of' % field, 'T-CARRY', body.name,
@@ -143,6 +171,13 @@ def option_map_pairs(ctx, body, lo):
     return out
 
 
+def is_given_state(body, operand):
+    """the operand is (a reference to) the function's own `state` parameter itself -- not a clone of it, which may have been completed
+    with fixed / dependent / default values in the meantime (seed C05-9: the objective evaluated on the completed state)"""
+    fs, root, calls = T.access_path(body, operand, transparent=T.TRANSPARENT_NOCLONE)
+    return root == 2 and not fs
+
+
 def solution_rules(ctx, body):
     R = 'C05'
     # ---------------- bound check
@@ -174,7 +209,7 @@ def solution_rules(ctx, body):
         nextc, header, some_bb, none_bb, blocks = lo
         ev = item_evaluations(body, lo, ty)
         for c in ev:
-            ctx.check(nextc.dst['l'] in ctx.S.slice_operand(body, c.args[0]).locals and T.access_path(body, c.args[1])[1] == 2, R + '.lists/%s/evaluate-item-at-state' % field, 'T-CARRY', body.name,
+            ctx.check(nextc.dst['l'] in ctx.S.slice_operand(body, c.args[0]).locals and is_given_state(body, c.args[1]), R + '.lists/%s/evaluate-item-at-state' % field, 'T-CARRY', body.name,
                       'evaluate is not applied to (loop item, state)', body.site(c.bb))
             error_propagates(ctx, R + '.lists/%s/error-propagates' % field, body, [c], 'constraint evaluation')
         loop_must(ctx, R + '.lists/%s/evaluate-every' % field, body, lo, lambda c: c in ev, 'evaluate')
@@ -204,7 +239,8 @@ def solution_rules(ctx, body):
     okobj = False
     for x in T.expr_walk(ex):
         if x[0] == 'call' and x[1] == 'evaluate' and re.search(r'<v1::Function as evaluate::Evaluate>::evaluate', x[2]):
-            if T.expr_has_call(x[3][0], 'objective') and T.strip_wrappers(x[3][1]) == ('place', 2, []): okobj = True
+            oc = [c for c in body.calls if len(x) > 4 and c.bb == x[4]]
+            if T.expr_has_call(x[3][0], 'objective') and oc and is_given_state(body, oc[0].args[1]): okobj = True
     fs = [f for a, f in T.own_fields(ex) if a == 'tuple']
     ctx.check(okobj and fs[-1:] == ['0'], R + '.objective/is-objective-value', 'T-CARRY', body.name, 'Solution.objective is not `.0` of self.objective().evaluate(state): %s' % T.expr_str(ex), body.site(sbi))
     objev = [c for c in body.calls if c.item == 'evaluate' and re.search(r'<v1::Function as evaluate::Evaluate>::evaluate', c.name)]
@@ -224,6 +260,20 @@ def solution_rules(ctx, body):
         for c in ins:
             if c.bb not in lo[4]: continue
             kf = T.access_path(body, c.args[1])[0]; vex = T.expr(body, c.args[2])
+            # every source of the key is `v.id`, every source of the value the payload of `v.substituted_value`, of the variable visited
+            # (followed through all definitions, tuples and Some(..): pairs built by a match, a spliced filter_map / Option::map closure, ...)
+            ksrc = value_sources(body, c.args[1]); vsrc = value_sources(body, c.args[2])
+            item = lo[0].dst['l']
+            def is_field(leaf, f):
+                kind, bb, obj, pending = leaf
+                return kind == 'place' and obj[0] in ('place', 'proj') and T.own_fields(obj)[-1:] == [(DV, f)] \
+                    and any((x[0] == 'call' and len(x) > 4 and x[4] == lo[0].bb) or (x[0] in ('place', 'local') and x[1] == item) for x in T.expr_walk(obj))
+            paired = bool(ksrc) and bool(vsrc) and all(is_field(l, 'id') and l[3] == [] for l in ksrc) and all(is_field(l, 'substituted_value') and l[3] == ['ok'] for l in vsrc)
+            if paired and not ((DV, 'id') in kf and any(f == 'substituted_value' for a, f in T.expr_fields(vex))):
+                arms = [sm for sb, sm, nn in option_field_tests(body, DV, 'substituted_value') if sb in lo[4]]
+                if arms and all(must_pass_sem(ctx, body, a, {lo[1]}, {c.bb}) for a in arms): sub = ('precise', lo, c)
+                elif sub is None or sub[0] == 'slice': sub = ('skips', lo, c)
+                continue
             if (DV, 'id') in kf and any(f == 'substituted_value' for a, f in T.expr_fields(vex)):
                 # the pairing (v.id, v.substituted_value) is visible here: then it is decided here.
                 # On the Some arm, every iteration with a substituted value reaches the insert
@@ -445,8 +495,15 @@ def inherited_from(ctx, b, sv, calls, except_fields):
 
 def constraint_rules(ctx):
     R = 'C05.lists'
+    # both functions are looked at in the re-normalised form (combinators on Option / Result written out as the match they abbreviate)
     b = ctx.method(R + '/Constraint::evaluate/anchor', CON, 'evaluate', trait='Evaluate')
-    if b is not None:
+    if b is not None: with_renormalised(ctx, b, lambda bd: _constraint_evaluate(ctx, R, bd))
+    b = ctx.method(R + '/RemovedConstraint::evaluate/anchor', RC, 'evaluate', trait='Evaluate')
+    if b is not None: with_renormalised(ctx, b, lambda bd: _removed_evaluate(ctx, R, bd))
+
+
+def _constraint_evaluate(ctx, R, b):
+    if True:
         sv = returned_struct(ctx, b, EC)
         ctx.check(sv is not None, R + '/Constraint::evaluate/aggregate', 'T-CARRY', b.name, 'the EvaluatedConstraint returned on success is not one recognisable value', b.site())
         for bi, st in ([(sv.where, sv.st())] if sv is not None else []):
@@ -477,8 +534,10 @@ def constraint_rules(ctx):
             ctx.check(field_is_none(ctx, b, sv, 'removed_reason'), R + '/Constraint::evaluate/no-reason', 'T-CONST', b.name, 'active constraint gets a removal reason', b.site(bi))
         fe = [c for c in b.calls if c.item == 'evaluate' and 'v1::Function as evaluate::Evaluate' in c.name]
         error_propagates(ctx, R + '/Constraint::evaluate/error-propagates', b, fe, 'function evaluation')
-    b = ctx.method(R + '/RemovedConstraint::evaluate/anchor', RC, 'evaluate', trait='Evaluate')
-    if b is not None:
+
+
+def _removed_evaluate(ctx, R, b):
+    if True:
         ce = [c for c in b.calls if c.item == 'evaluate' and re.search(r'<v1::Constraint as evaluate::Evaluate>::evaluate', c.name)]
         ctx.check(len(ce) >= 1, R + '/RemovedConstraint::evaluate/delegates', 'T-MUSTCALL', b.name, 'does not evaluate the wrapped constraint', b.site())
         for c in ce:
